@@ -260,6 +260,7 @@ def verify_target(db, reg, key, timeout_ms=20000, want_smt2=False, findings=(), 
                     normal_exits += 1
                     exits.append('return')
                     post = s2.fork()
+                    post.pc = s2.pc     # facts about uninterpreted images met while evaluating a clause stay known
                     post.spec = True
                     post.env = dict(env)
                     post.env['result'] = val
